@@ -170,11 +170,11 @@ def conv_opts(conv):
 
 
 def _tb_copy(x):
-    return np.array(x)
+    return np.array(x) if isinstance(x, np.ndarray) else x
 
 
 def _tb_view(x):
-    return x.view()
+    return x.view() if isinstance(x, np.ndarray) else x
 
 
 def make_sim(cls, conv, N):
@@ -244,8 +244,13 @@ def gen_program(rng, cls, N, length):
             # a short-lived copy with a freshly allocated gate array
             k = ncirc
             ncirc += 1
-            prog.append({"op": "copy", "c": c})
-            t, nq = new()
+            if rng.random() < 0.75:
+                # (the array first: a copy made in between would occupy the addresses that have just been freed)
+                t, nq = new()
+                prog.append({"op": "copy", "c": c})
+            else:
+                prog.append({"op": "copy", "c": c})
+                t, nq = new()
             apply(k, t, nq)
             prog.append({"op": "check", "c": k})
             if rng.random() < 0.85:
@@ -345,6 +350,26 @@ def _embed_apply(psi, U, qubits, N):
 
 SPY = []
 
+# Coq text of one case: `icheck iinit <trace>` with the monomorphic constructors below (cons lists: the nested list
+# notation is slow to parse)
+COQ_HEADER = (
+    "Definition IE (e : iev) (so : option (list (nat * bool) * list nat)) (oo : option (bool * Z)) : iev * iobs := (e, (so, oo)).\n"
+    "Definition INS : option (list (nat * bool) * list nat) := None.\n"
+    "Definition INO : option (bool * Z) := None.\n"
+    "Definition ISS (kl : list (nat * bool)) (live : list nat) : option (list (nat * bool) * list nat) := Some (kl, live).\n"
+    "Definition ISO (h : bool) (t : Z) : option (bool * Z) := Some (h, t).\n"
+    "Definition IP (k : nat) (b : bool) : nat * bool := (k, b).\n"
+)
+
+
+def clist(xs):
+    xs = list(xs)
+    return "(" + " :: ".join(xs + ["nil"]) + ")" if xs else "nil"
+
+
+def case_expr(trace):
+    return "icheck iinit " + clist(trace)
+
 
 def install_spy():
     from quimb.tensor.circuit.core import CircuitBase
@@ -359,7 +384,12 @@ def install_spy():
             wr = weakref.ref(G)
         except TypeError:
             wr = None
-        SPY.append({"sim": id(self), "gid": id(G), "wr": wr, "hit": bool(hit), "R": R, "eager": bool(getattr(self, "convert_eager", False))})
+        try:
+            M = np.array(np.asarray(G), dtype=complex)
+        except Exception:
+            M = None
+        SPY.append({"sim": id(self), "gid": id(G), "wr": wr, "hit": bool(hit), "R": R, "M": M,
+                    "eager": bool(getattr(self, "convert_eager", False))})
         return R
 
     CircuitBase._maybe_convert_gate_array = spy
@@ -416,9 +446,21 @@ def run_program(ctx, cls, conv, N, prog, ncand=32):
                         dead_real_ids.add(rid)
         return evs
 
+    reserved = []   # fresh arrays that the allocator placed at the address of a dead program array
+    pending = []    # deaths already noticed, not yet reported as events
+
+    def reserve():
+        """ADVERSARIAL ALLOCATOR: directly after references were dropped, allocate fresh arrays of both gate shapes and
+        keep those that received the address of an array that has just died; a later `new` writes its contents into
+        one of them (a freshly allocated array the library has never seen)"""
+        fresh = [np.empty(sh, dtype=complex) for _ in range(ncand) for sh in ((2, 2), (4, 4))]
+        pending.extend(poll_deaths())
+        reserved.extend(x for x in fresh if id(x) in dead_real_ids and len(reserved) < 64)
+
     def register(obj, tag):
         """a new program array: returns the events (deaths noticed first, then the allocation)"""
-        evs = poll_deaths()
+        evs = pending + poll_deaths()
+        pending.clear()
         rid = id(obj)
         if rid in dead_real_ids:
             state["recycled"] += 1
@@ -437,11 +479,14 @@ def run_program(ctx, cls, conv, N, prog, ncand=32):
                     raise KeyError(f"unknown key format {k!r}")
                 listing.append((addr_of(k), pins_key(k, v)))
         live = sorted(at_addr)
-        return "Some ([" + "; ".join(f"({natlit(k)}, {blit(p)})" for k, p in listing) + f"], {natlist(live)})", listing
+        return "(ISS " + clist(f"(IP {natlit(k)} {blit(p)})" for k, p in listing) + " " + clist(natlit(x) for x in live) + ")", listing
 
-    def tag_of_array(R):
+    def tag_of_array(R, prefer=None):
+        """content tag of the array whose conversion R is (the expected one first: two arrays may have equal contents)"""
         R = np.asarray(R)
-        for t, M in pool.items():
+        order = ([prefer] if prefer in pool else []) + [t for t in pool if t != prefer]
+        for t in order:
+            M = pool[t]
             E = expected_conv(M)
             if R.shape == E.shape and R.dtype == E.dtype and np.array_equal(R, E):
                 return t
@@ -476,12 +521,25 @@ def run_program(ctx, cls, conv, N, prog, ncand=32):
                 # program array - first of all an address that is still a key of the dict
                 d = cache_wr()
                 stale = {k for k in (dict.keys(d) if d is not None else ()) if k in dead_real_ids}
-                cands = [np.array(M) for _ in range(ncand)]
-                pick = next((x for x in cands if id(x) in stale), None)
-                if pick is not None:
+                cands, pick = [], None
+                fit = [x for x in reserved if x.shape == M.shape and id(x) in dead_real_ids]
+                fit.sort(key=lambda x: id(x) not in stale)
+                if fit:
+                    pick = fit[0]
+                    reserved[:] = [x for x in reserved if x is not pick]
+                    pick[...] = M
+                fit = None
+                for _ in range(0 if pick is not None else ncand):
+                    x = np.array(M)
+                    cands.append(x)
+                    if id(x) in stale or (not stale and id(x) in dead_real_ids):
+                        pick = x
+                        break
+                if pick is not None and id(pick) in stale:
                     state["stale_alloc"] += 1
-                else:
+                if pick is None:
                     pick = next((x for x in cands if id(x) in dead_real_ids), cands[0])
+                x = None
                 names[op["name"]] = pick
                 del cands, d
                 evs, _a = register(pick, op["name"])
@@ -492,6 +550,7 @@ def run_program(ctx, cls, conv, N, prog, ncand=32):
                 if U is not None:
                     a = canon[id(U)]
                     del U
+                    reserve()
                     events.append((f"IDropUser {natlit(a)}", None))
             elif kind == "copy":
                 sims.append(sims[op["c"]].copy())
@@ -501,6 +560,7 @@ def run_program(ctx, cls, conv, N, prog, ncand=32):
                 sims[op["c"]] = None
                 refs[op["c"]] = None
                 gc.collect()
+                reserve()
                 events.append((f"IDrop {natlit(op['c'])}", None))
             elif kind in ("apply", "const", "param"):
                 circ, nq = sims[op["c"]], len(op["qubits"])
@@ -522,7 +582,7 @@ def run_program(ctx, cls, conv, N, prog, ncand=32):
                     M = pool[tag]
                 else:
                     U, tag, M = None, None, None
-                accepted = True
+                accepted, exc = True, None
                 try:
                     if kind == "apply":
                         if op["how"] == "gate":
@@ -536,14 +596,7 @@ def run_program(ctx, cls, conv, N, prog, ncand=32):
                     else:
                         circ.apply_gate(op["label"], *op["params"], *op["qubits"], **kw)
                 except Exception as e:
-                    accepted = False
-                    if rej is None:
-                        viol(f"{cls}:idcache_program:{kind}:unexpected_rejection", f"{type(e).__name__}: {e}", i)
-                        return None
-                    del e
-                if accepted and rej is not None:
-                    viol(f"{cls}:idcache_program:{kind}:option_not_rejected", f"gate options {rej} were accepted", i)
-                    return None
+                    accepted, exc = False, f"{type(e).__name__}: {e}"
                 calls = list(SPY)
                 SPY.clear()
                 if len(calls) > 1 or (accepted and len(calls) != 1):
@@ -551,26 +604,33 @@ def run_program(ctx, cls, conv, N, prog, ncand=32):
                                           {"class": cls, "op": op, "calls": len(calls)})
                     return None
                 events += pre
+                explained = False
                 if calls:
                     call = calls[0]
                     if kind == "param":
                         # the array was allocated inside the library; the Gate object (held by _gates if accepted) is its only owner
-                        Gobj = call["wr"]() if call["wr"] is not None else None
-                        if Gobj is None:
-                            ctx.broken_obligation("correspondence:idcache:gate_array_not_observable", {"class": cls, "op": op})
-                            return None
                         tag = 200000 + i
-                        pool[tag] = np.array(np.asarray(Gobj), dtype=complex)
-                        M = pool[tag]
-                        evs, a = register(Gobj, tag)
-                        del Gobj
-                        events += [(e, None) for e in evs]
+                        pool[tag] = M = call["M"]
+                        Gobj = call["wr"]() if call["wr"] is not None else None
+                        if Gobj is not None:
+                            evs, a = register(Gobj, tag)
+                            del Gobj
+                            events += [(e, None) for e in evs]
+                        else:
+                            # already freed again (rejected gate whose array nothing holds)
+                            events += [(e, None) for e in pending + poll_deaths()]
+                            pending.clear()
+                            a = addr_of(call["gid"])
+                            events.append((f"IAlloc {natlit(a)} {zlit(tag)}", None))
                     else:
                         a = canon[id(U)]
-                    got_tag = tag_of_array(call["R"])
-                    events.append((f"IApply {natlit(op['c'])} {natlit(a)} {blit(accepted)}", f"Some ({blit(call['hit'])}, {zlit(got_tag)})"))
+                    got_tag = tag_of_array(call["R"], tag)
+                    events.append((f"IApply {natlit(op['c'])} {natlit(a)} {blit(accepted)}", f"(ISO {blit(call['hit'])} {zlit(got_tag)})"))
                     if kind == "param":
                         events.append((f"IDropUser {natlit(a)}", None))
+                        if a not in at_addr:
+                            events.append((f"IGc {natlit(a)}", None))
+                            dead_real_ids.add(call["gid"])
                     # (c) call-site oracle: the conversion handed back must be the conversion of the array handed in
                     if got_tag != tag:
                         E = expected_conv(M)
@@ -581,8 +641,16 @@ def run_program(ctx, cls, conv, N, prog, ncand=32):
                         viol(f"CircuitBase._maybe_convert_gate_array:{conv}:returned_conversion_of_another_array",
                              f"{cls}({conv})._maybe_convert_gate_array(G) for the freshly allocated array #{tag} ({'hit' if call['hit'] else 'miss'} on "
                              f"key id(G)) returned {was}; max |returned - convert(G)| = {err:.3g}", i)
+                        explained = True
                     call = None
                     calls = None
+                if not accepted and rej is None:
+                    if not explained:
+                        viol(f"{cls}:idcache_program:{kind}:unexpected_rejection", exc, i)
+                    return None
+                if accepted and rej is not None:
+                    viol(f"{cls}:idcache_program:{kind}:option_not_rejected", f"gate options {rej} were accepted", i)
+                    return None
                 if accepted:
                     refs[op["c"]] = _embed_apply(refs[op["c"]], M.reshape(2**nq, 2**nq), list(op["qubits"]), N)
             elif kind == "check":
@@ -601,7 +669,8 @@ def run_program(ctx, cls, conv, N, prog, ncand=32):
         circ = U = M = None  # noqa: F841 - the harness itself must not keep simulators / arrays alive
         SPY.clear()
         # deaths caused by this operation, then the state observation on the last event of the operation
-        events += [(e, None) for e in poll_deaths()]
+        events += [(e, None) for e in pending + poll_deaths()]
+        pending.clear()
         try:
             st, listing = observe_state()
         except KeyError as e:
@@ -609,9 +678,13 @@ def run_program(ctx, cls, conv, N, prog, ncand=32):
             return None
         structural(i)
         for j, (e, out) in enumerate(events):
-            last = j == len(events) - 1
-            trace.append(f"({e}, ({st if last else 'None'}, {out or 'None'}))")
+            # the state observation goes on the last event of the operation (omitted when nothing changed since the last one)
+            last = j == len(events) - 1 and st != state.get("last_st")
+            trace.append(f"IE ({e}) {st if last else 'INS'} {out or 'INO'}")
+        if events:
+            state["last_st"] = st
         descr.append({"op": op, "events": [e for e, _ in events], "dict_listing(addr, pins)": listing, "live": sorted(at_addr)})
     info = {"class": cls, "conv": conv, "N": N, "ops": descr[-12:], "recycled_addresses": state["recycled"],
             "allocated_at_stale_key": state["stale_alloc"], "program": prog}
+    state.pop("last_st", None)
     return trace, info, state
